@@ -58,10 +58,7 @@ namespace KS
 def init : KS := { now := 0, m := fun _ => none, dom := [] }
 
 /-- what every command sees of a key -/
-def find (s : KS) (k : String) : Option REntry :=
-  match s.m k with
-  | some e => if e.live s.now then some e else none
-  | none => none
+def find (s : KS) (k : String) : Option REntry := (s.m k).filter fun e => e.live s.now
 
 def present (s : KS) (k : String) : Bool := (s.find k).isSome
 
@@ -79,9 +76,7 @@ def flush (s : KS) : KS := { s with m := fun _ => none, dom := [] }
 /-- time passes; keys whose deadline is reached disappear -/
 def adv (s : KS) (dt : Nat) : KS :=
   { s with now := s.now + dt,
-           m := fun k => match s.m k with
-             | some e => if e.live (s.now + dt) then some e else none
-             | none => none }
+           m := fun k => (s.m k).filter fun e => e.live (s.now + dt) }
 
 /-- the deadline of a visible key -/
 def dlOf (s : KS) (k : String) : Option Nat := (s.find k).bind (·.dl)
@@ -399,17 +394,17 @@ def runIncrSlice (s : Srv) (key : String) (args : List Bytes) : Srv × Reply :=
   | [a1, a2, .num maxv, .num ms] =>
     match scoreOf a1, scoreOf a2 with
     | some start, some stop =>
-      match s.execPrim (.zremrangebyscore key (.incl 0) (.excl start)) with
-      | (_, .err) => (s, .err)
-      | (s1, _) =>
-        match s1.execPrim (.zcount key (.incl start) (.incl stop)) with
-        | (_, .int n) =>
-          if n < maxv then
-            let s2 := (s1.execPrim (.zadd key stop)).1
-            let s3 := if ms > 0 then (s2.execPrim (.pexpire key ms)).1 else s2
-            (s3, .int (n + 1))
-          else (s1, .int n)
-        | _ => (s, .err)
+      let r1 := s.execPrim (.zremrangebyscore key (.incl 0) (.excl start))
+      if r1.2 = .err then (s, .err) else
+      let r2 := r1.1.execPrim (.zcount key (.incl start) (.incl stop))
+      match r2.2 with
+      | .int n =>
+        if n < maxv then
+          let s2 := (r1.1.execPrim (.zadd key stop)).1
+          let s3 := if ms > 0 then (s2.execPrim (.pexpire key ms)).1 else s2
+          (s3, .int (n + 1))
+        else (r1.1, .int n)
+      | _ => (s, .err)
     | _, _ => (s, .err)
   | _ => (s, .err)
 
